@@ -461,4 +461,27 @@ Proof. intros H1 H2 H3 H4. unfold amp. cbn [run].
   - rewrite bsum_mul_l. reflexivity.
   - intros m Hm. rewrite run_ids by exact Hm. unfold step. rewrite H1. cbn [bsum e0].
     destruct (forallb (diag dd) mids); ring. Qed.
+
+(* ---- applying a local operator (one-qubit gate, jump operator, projector) by contracting it with the site tensor acts on the
+   represented vector exactly as the operator acts on that tensor factor: new_amp(.. p ..) = sum_q u[p,q] amp(.. q ..)  (C02, C14, C12) ---- *)
+Lemma step_linear n (c : nat -> K) (w : nat -> vec) s p r :
+  step (fun l => bsum n (fun q => c q * w q l)) s p r = bsum n (fun q => c q * step (w q) s p r).
+Proof. unfold step.
+  rewrite (bsum_ext (chiL s) _ (fun l => bsum n (fun q => c q * (w q l * A s p l r))))
+    by (intros l _; rewrite <- bsum_mul_r; apply bsum_ext; intros q _; ring).
+  rewrite bsum_swap. apply bsum_ext; intros q _. rewrite bsum_mul_l. reflexivity. Qed.
+Lemma run_linear ss : forall n (c : nat -> K) (w : nat -> vec) sigma r,
+  run (fun l => bsum n (fun q => c q * w q l)) ss sigma r = bsum n (fun q => c q * run (w q) ss sigma r).
+Proof. induction ss as [|s ss IH]; intros n c w sigma r; destruct sigma as [|p sigma]; cbn [run]; try reflexivity.
+  rewrite (run_ext ss _ (fun l => bsum n (fun q => c q * step (w q) s p l)) sigma) by (intro l; apply step_linear).
+  apply IH. Qed.
+Theorem local_operator_acts_on_amplitudes pre s post u spre p spost : length spre = length pre ->
+  amp (pre ++ rotate u s :: post) (spre ++ p :: spost) = bsum (d s) (fun q => u p q * amp (pre ++ s :: post) (spre ++ q :: spost)).
+Proof. intro H. unfold amp. rewrite run_app by exact H. cbn [run].
+  rewrite (run_ext post _ (fun l => bsum (d s) (fun q => u p q * step (run e0 pre spre) s q l)) spost).
+  - rewrite run_linear. apply bsum_ext; intros q _. rewrite run_app by exact H. reflexivity.
+  - intro r. unfold step, rotate. cbn [chiL d A].
+    rewrite (bsum_ext (chiL s) _ (fun l => bsum (d s) (fun q => u p q * (run e0 pre spre l * A s q l r))))
+      by (intros l _; rewrite <- bsum_mul_l; apply bsum_ext; intros q _; ring).
+    rewrite bsum_swap. apply bsum_ext; intros q _. rewrite bsum_mul_l. reflexivity. Qed.
 End TT.
